@@ -10,3 +10,8 @@ package definitions
 //@ func ConvertToHttpStatus props C06,C14
 //@ ensures implies(result1 != nil, result0 == 0)
 //@ ensures implies(result1 == nil, indom(validHttpStatusCode, uint(result0)))
+
+// strconv.ParseUint(s, 8, 32): assumed to return the value of the octal numeral (uninterpreted here) or an error.
+//@ func PermissionStringToFileMod props C20,C14
+//@ ensures bounded: implies(result1 == nil, result0 <= 4095)
+//@ ensures failed: implies(result1 != nil, result0 == 0)
